@@ -84,6 +84,13 @@ class FanoutRunner(Runner):
     def op_iterkeys(self, op, t0):
         self.trace.pop()
 
+    def op_cull(self, op, t0):
+        # the size limit is far away, so cull() removes exactly the expired items of every shard and returns their number
+        real = self.call(self.c.cull)
+        t1 = self.clock.peek()
+        self.expect(op, real, ('ok', self.m.expire(t0, t1)))
+        self.classes.add('cull')
+
     def op_peekitem(self, op, t0):
         self.trace.pop()
 
@@ -138,7 +145,7 @@ class Histories(SubCheck):
             }
             shards = draw(st.sampled_from(SHARDS))
             size_limit = draw(st.sampled_from([None, 2**30, 2**34, 10**9]))
-            ops = draw(st.lists(op_strategy(cfg['disk_min_file_size'], keys=KEYS), min_size=1, max_size=steps))
+            ops = draw(st.lists(st.one_of(op_strategy(cfg['disk_min_file_size'], keys=KEYS), op_strategy(cfg['disk_min_file_size'], keys=KEYS), st.just(('cull',))), min_size=1, max_size=steps))
             return {'cfg': cfg, 'shards': shards, 'size_limit': size_limit, 'ops': ops}
 
         return case()
@@ -187,7 +194,7 @@ class Histories(SubCheck):
                 if n != 1:
                     raise Violation('C13/check-coverage', 'a stray file in shard %d was reported %d times by check(): %s' % (i, n, short(warns, 400)))
             nonempty = sum(1 for n in counts if n)
-            aggregate = any(op[0] in ('clear', 'evict', 'expire', 'iter', 'reversed', 'stats', 'len') for op in case['ops'])
+            aggregate = any(op[0] in ('clear', 'evict', 'expire', 'cull', 'iter', 'reversed', 'stats', 'len') for op in case['ops'])
             return {'nontrivial': nonempty >= 2 and aggregate, 'classes': ['shards=%d' % shards] + sorted(r.classes)}
         finally:
             fc.close()
